@@ -202,6 +202,15 @@ pub fn run(env: &Env, run: &Run) -> (Stats, Coverage) {
                     for w in [21u32, 20, 16] {
                         aliases.extend((1..=48u32).map(|k| x.wrapping_add(k << w)));
                     }
+                    // every value that differs from x in one or two of the bits 0..=20: a key whose
+                    // index and tag are both derived from the code point (xor-folded, shifted)
+                    // confuses x with such a neighbour
+                    for b1 in 0..=20u32 {
+                        aliases.push(x ^ (1 << b1));
+                        for b2 in (b1 + 1)..=20u32 {
+                            aliases.push(x ^ (1 << b1) ^ (1 << b2));
+                        }
+                    }
                     for alias in aliases {
                         let r = dp_cp(class, alias);
                         h.evaluations += 1;
@@ -247,7 +256,7 @@ pub fn run(env: &Env, run: &Run) -> (Stats, Coverage) {
             "reference_identifier": format!("{:?}", derived_property(&env.u63, v, Class::Identifier))}));
     }
     let cov = Coverage {
-        rule: "state = one 32-bit value; both classes and both entry points are evaluated on it and compared with (a) the RFC 8264 s.8 decision list recomputed from the pinned raw 6.3.0 UCD files by an independent reader, (b) the IANA registry row read by the harness's own splitter; plus single-threaded aliasing histories x -> x xor 2^b (b=16..31) -> x, and x -> x + k*2^24 (all k) / x + k*2^w (w=21,20,16; k<=48) -> x for scalar values x (quick: a third of them rotating with the seed + all below U+3000 and U+F900..U+10000; thorough: all); non-trivial = scalar values whose identifier value is not UNASSIGNED".into(),
+        rule: "state = one 32-bit value; both classes and both entry points are evaluated on it and compared with (a) the RFC 8264 s.8 decision list recomputed from the pinned raw 6.3.0 UCD files by an independent reader, (b) the IANA registry row read by the harness's own splitter; plus single-threaded aliasing histories x -> x xor 2^b (b=16..31) -> x, and x -> x + k*2^24 (all k) / x + k*2^w (w=21,20,16; k<=48) -> x, and x -> x xor m -> x for every mask m of one or two bits among bits 0..20, for scalar values x (quick: a third of them rotating with the seed + all below U+3000 and U+F900..U+10000; thorough: all); non-trivial = scalar values whose identifier value is not UNASSIGNED".into(),
         alphabet: json!("u32"),
         bound_completed: bound,
         exhaustive,
